@@ -558,6 +558,7 @@ Definition safe_step (st : state) (o : op) : bool :=
   | Restart => false
   | HR _ _ _ _ => true          (* no open finding touches Reserve*InPool *)
   | HL _ _ _ _ => false         (* Release*InPool has no owner argument (d2): not covered by the condition *)
+  | PS _ _ | PR _ | PX _ => false   (* PPPoE DHCPv6 over PPP: not covered by the condition (releases by address, d2) *)
   | PI _ _ | IA _ | IM _ | IC _ _ _ _ _ _ _ _ => true
   end.
 
@@ -590,7 +591,7 @@ Lemma head_step_safe st o :
   reg_ok (st_reg st) -> safe_step st o = true -> step Head st o = step Repaired st o.
 Proof.
   intros Hok. unfold safe_step, step.
-  destruct o as [sid vrf s4 s6 spd o4 o6 od|sid a|sid|isreq bind rq sid vrf s4 o4|isreq sid vrf s6 spd o6 od|sid|sid| |sid|sid|sid|sid vrf s4 o4 s6 spd o6 od|sid|hf key hx sid|hf key hx sid];
+  destruct o as [sid vrf s4 s6 spd o4 o6 od|sid a|sid|isreq bind rq sid vrf s4 o4|isreq sid vrf s6 spd o6 od|sid|sid| |sid|sid|sid|sid vrf s4 o4 s6 spd o6 od|sid|hf key hx sid|hf key hx sid|isreq sid|sid|sid];
     try discriminate; try reflexivity;
     destruct (find_sess sid st) as [s|]; try reflexivity.
   - destruct (s_ppp s && s_live s); [|reflexivity]. intros H. apply step_pa_eq; [exact Hok|apply pa_safeb_spec; exact H].
